@@ -1150,9 +1150,14 @@ impl super::DiskFS for Disk {
                 dir.delete();
                 self.write_block(&dir.to_bytes(),ptr as usize,0)?;
                 let mut next = ptr;
+                let mut link = dir.next();
                 for _try in 0..100 {
                     self.deallocate_block(next as usize)?;
-                    next = dir.next();
+                    next = link;
+                    if next!=0 {
+                        // follow the chain: every block of the directory is released, not only the key block
+                        link = self.get_directory(next as usize)?.next();
+                    }
                     if next==0 {
                         parent_dir.delete_entry(&parent_loc);
                         self.write_block(&parent_dir.to_bytes(),parent_loc.block as usize,0)?;
